@@ -27,10 +27,13 @@ Definition Imp_lib (T : tab) (k : key) (v : val) : list (tab * key) :=
 
 Notation M := (memo_prog R_lib Imp_lib).
 
-Ltac inc :=
-  cbn [Imp_lib app];
-  repeat first [ assumption | apply incl_refl | apply incl_nil_l
-               | apply incl_tl | (eapply incl_tran; [eassumption|]) ].
+Ltac inc_pre :=
+  repeat match goal with H : incl (_ :: _) _ |- _ => apply incl_cons_inv in H; destruct H as [_ H] end.
+Ltac inc_in :=
+  first [ assumption
+        | match goal with |- In _ (_ :: _) => right; inc_in end
+        | match goal with H : incl _ ?B |- In _ ?B => apply H; inc_in end ].
+Ltac inc := cbn [Imp_lib app] in *; inc_pre; first [ apply incl_nil_l | intros ?x ?Hx; inc_in ].
 
 Lemma M_rd_known : forall K T k c r,
   In (T, k) K -> (forall v, R_lib T k v -> M (Imp_lib T k v ++ (T, k) :: K) (c (Some v)) r) ->
@@ -110,7 +113,7 @@ Qed.
 Definition no_paths (cd : cdesc) : Prop := Forall (fun f => fd_path f = false) (cd_fields cd).
 
 Lemma size_path_empty : forall K c r, M K (c 0) r -> M K (Size T_PATH c) r.
-Proof. intros. apply MP_size_empty; auto. intros k v H0. exact H0. Qed.
+Proof. intros. apply MP_size_empty; auto. Qed.
 
 Lemma M_p_load_cfg : forall cd K c r, no_paths cd ->
   (forall K', incl K K' -> M K' c r) -> M K (p_load_cfg cd c) r.
@@ -297,8 +300,8 @@ Proof.
   intros tid cd cs. induction cs as [|c cs IH]; intros K H; cbn [thread_prog List.length repeat].
   - constructor.
   - inversion H; subst.
-    eapply memo_bind; [now apply M_call|]. intros K1 H1.
-    eapply memo_bind; [now apply IH|]. intros K2 H2. cbn [app]. constructor.
+    eapply memo_bind; [now apply M_call|]. intros K1 Hi1.
+    eapply memo_bind; [now apply IH|]. intros K2 Hi2. cbn [app]. constructor.
 Qed.
 
 Lemma M_threads : forall cd pss tid, Forall (Forall (safe_call cd)) pss ->
@@ -357,7 +360,7 @@ Definition cfg_path_load : config := scenario cd_paths2 [[CLoad [KPathTop]]; [CL
 Definition seg_path_load : list nat := repeat 0 7 ++ repeat 1 20 ++ repeat 0 10.
 
 Definition cfg_defaults : config := scenario cd_dflt2 [[CDump [VTBase 1; VTBase 1]]; [CDump [VTBase 1; VTBase 1]]].
-Definition seg_defaults : list nat := repeat 0 10 ++ repeat 1 10 ++ repeat 0 10.
+Definition seg_defaults : list nat := repeat 0 11 ++ repeat 1 10 ++ repeat 0 10.
 
 Definition cfg_v1_catchall : config := ([], start [call_v1_catchall; call_v1_catchall]).
 Definition seg_v1_catchall : list nat := [0; 0; 0; 1; 1; 1; 1; 0; 0].
